@@ -305,6 +305,49 @@ def rule_fl1(ctx: Ctx) -> RuleResult:
 
 # ======================================================================
 # C06 split
+WRAPPERS = {"time_split": ("rxsci/data/time_split.py", "time_split"), "roll": ("rxsci/data/roll.py", "roll"),
+            "split": ("rxsci/data/split.py", "split"), "group_by": ("rxsci/operators/group_by.py", "group_by")}
+
+
+def rule_fwd1(ctx: Ctx, heads=("time_split", "roll", "split", "group_by")) -> RuleResult:
+    """FWD-1: the public factory of a grouping operator hands its configuration to the multiplexed implementation unchanged: every
+    argument of the call of <name>_mux is the factory's own parameter (validation may raise; it may not clamp, default or combine)."""
+    r = RuleResult("FWD-1", "the public factories of the grouping operators pass their configuration parameters unchanged to the implementation")
+    for h in heads:
+        rel, name = WRAPPERS[h]
+        m, fn = ctx.function(rel, name)
+        r.instances += 1
+        params = set(m.scopes[fn].params)
+        saw = False
+        for p in ctx.fn_paths(m, fn, inline=False):
+            r.paths += 1
+            if p.outcome != "return":
+                continue
+            calls = [e for e in p.trace if e.k == "call" and e.func[0] == "func" and e.func[1].name.endswith("_mux")]
+            if len(calls) != 1:
+                r.ob(False, lambda p=p, calls=calls: Finding("FWD-1", "%s::%s{implementation}" % (rel, name), m.where(fn),
+                                                           "expected one call of the multiplexed implementation on every path; found %d" % len(calls), trace_of(p)))
+                continue
+            saw = True
+            c = calls[0]
+            callee = c.func[1]
+            pos = [a.arg for a in callee.args.args]
+            for k, a in enumerate(c.args):
+                if a[0] == "kw":
+                    pname, val = a[1], a[2]
+                else:
+                    pname, val = (pos[k] if k < len(pos) else "#%d" % k), a
+                r.groups.add((h, pname))
+                ok = val[0] == "arg" and val[1] in params
+                r.ob(ok, lambda p=p, pname=pname, val=val, c=c: Finding(
+                    "FWD-1", "%s::%s{%s}" % (rel, name, pname), m.where(c.node),
+                    "%s receives %s = %s instead of the factory's own parameter: the configuration the user gave is altered on the way (clamped, defaulted or "
+                    "combined with another parameter)" % (callee.name, pname, show(val)), trace_of(p)))
+        r.ob(saw, lambda: Finding("FWD-1", "%s::%s{implementation}" % (rel, name), m.where(fn), "no path of %s calls its multiplexed implementation" % name))
+    r.require_instances(len(heads))
+    return r
+
+
 def rule_dp4(ctx: Ctx) -> RuleResult:
     r = RuleResult("DP-4", "split: after an item, the stored predicate equals the predicate of that item; roll-over is Completed < Create < Next")
     site, spec = head_spec(ctx, *FW_HEADS["split"])
